@@ -11,7 +11,8 @@ from .. import audit, base, gen
 from ..base import Violation
 
 RULE = ("cases: (integer-labelled planar or lat/lon graph, box, trace, edge-based configuration with unbounded start radius); "
-        "boxes drawn on the coordinate lattice so that nodes lie exactly on box borders; non-trivial = >=3 nodes, >=2 edges "
+        "boxes drawn on the coordinate lattice so that nodes lie exactly on box borders; 40 % of the SQLite maps loaded call by call "
+        "(per-call no_index / no_commit, repeated nodes and edges, re-index calls in between); non-trivial = >=3 nodes, >=2 edges "
         "and the box is neither empty nor full; distinct = case JSON")
 ASSUMPTIONS = ["integer labels; graphs without self-listed neighbours (an in-memory artefact the statement excepts)",
                "all_edges is compared without a box (the statement says 'full edge listing')",
